@@ -21,7 +21,8 @@ META = {
         'open() on the add route is read-only, the decompression temp file is unlinked in a finally and tar contents are '
         'extracted into a TemporaryDirectory context; R6 the package route and the single-file route recognise a resource by the '
         'same content recognisers and neither adds a condition on the file name (guard sets of the accepting effects).'),
-    'decides': ['sibling entry points', 'skip dominance', 'input never mutated', 'source files opened read-only / temp cleanup'],
+    'decides': ['sibling entry points', 'skip dominance', 'input never mutated', 'source files opened read-only / temp cleanup',
+                'resources recognised by content on every route'],
     'not_decided': ['equality of stored content across supply routes'],
     'assumptions': ['annotations of model-typed parameters are truthful'],
 }
